@@ -207,3 +207,56 @@ func ZZ_C16_tree() {
 	rt.Assert((len(m.ToBytes()) > 0) == (len(mv) == 0), "message:encodable-iff-no-variables")
 	rt.Reach("end")
 }
+
+// ZZ_C16_shared: an item shared by several parents (first, middle or last child), and the
+// listing of every parent built before and after the others.
+func ZZ_C16_shared() {
+	rt.MapOrder(rt.Param("order"))
+	sub := NewListNode(NewIntNode(1, "s1"), NewBinaryNode("s2"), NewBooleanNode("s3"))
+	leaf := NewUintNode(2, "u1", uint16(5), "u2")
+	p1 := NewListNode(sub, "a1")
+	zzCheckListing(p1, []string{"s1", "s2", "s3", "a1"}, 2, "shared:first-parent")
+	p2 := NewListNode(sub, "b1", leaf)
+	p3 := NewListNode(leaf, sub)
+	p4 := NewListNode(NewListNode(sub), "c1")
+	zzCheckListing(p2, []string{"s1", "s2", "s3", "b1", "u1", "u2"}, 3, "shared:second-parent")
+	zzCheckListing(p3, []string{"u1", "u2", "s1", "s2", "s3"}, 2, "shared:third-parent")
+	zzCheckListing(p4, []string{"s1", "s2", "s3", "c1"}, 2, "shared:nested-parent")
+	zzCheckListing(p1, []string{"s1", "s2", "s3", "a1"}, 2, "shared:first-parent-again")
+	zzCheckListing(sub, []string{"s1", "s2", "s3"}, 3, "shared:child")
+	f := p2.FillVariables(map[string]interface{}{"s2": 1, "u1": uint16(9)})
+	zzCheckListing(f, []string{"s1", "s3", "b1", "u2"}, 3, "shared:filled")
+	zzCheckListing(p2, []string{"s1", "s2", "s3", "b1", "u1", "u2"}, 3, "shared:second-parent-after-fill")
+	zzCheckListing(p3, []string{"u1", "u2", "s1", "s2", "s3"}, 2, "shared:third-parent-after-fill")
+	rt.Reach("end")
+}
+
+// ZZ_C16_dupfill: a fill-in value that brings a name already present elsewhere in the tree
+// (at any depth) must be refused: no name may occur twice anywhere in a tree.
+func ZZ_C16_dupfill() {
+	which := rt.Param("which")
+	tmpl := NewListNode(NewUintNode(1, "x"), "payload", NewListNode(NewIntNode(2, "y"), "inner"))
+	var val ItemNode
+	key := "payload"
+	switch which {
+	case 0:
+		val = NewUintNode(2, "x")
+	case 1:
+		val = NewListNode(NewBooleanNode("y"))
+	case 2:
+		val, key = NewASCIINodeVariable("x", 0, -1), "inner"
+	case 3:
+		val, key = NewListNode("payload"), "inner"
+	case 4:
+		val = NewBinaryNode("fresh") // a new name is fine
+	}
+	var got ItemNode
+	p := rt.Try(func() { got = tmpl.FillVariables(map[string]interface{}{key: val}) })
+	if which == 4 {
+		rt.Assert(!p, "dupfill:fresh-name-accepted")
+		zzCheckListing(got, []string{"x", "fresh", "y", "inner"}, 3, "dupfill:fresh")
+	} else {
+		rt.Assert(p, "dupfill:duplicate-name-refused")
+	}
+	rt.Reach("end")
+}
